@@ -470,7 +470,15 @@ func c08Judge(c *wk.Ctx, t *c08Transcript, f c08Fault, res *c08Outcome, wit map[
 				}
 				rel := int(f.at - m.start)
 				hit := rel == 0
-				for _, key := range []string{"\x62id", "\x66run_id", "\x64data"} {
+				if hit && t.version == 1 {
+					// a v1 work-done is a bare map {step_id, output_id, output_data, debug_logs}: a header that still says
+					// "map" with at least the three entries that carry the result delivers that result unharmed (what
+					// follows is never read), which no client can tell from an intact message
+					if nb := m.bytes[0] ^ f.garbage[0]; nb>>5 == 5 && nb&0x1f >= 3 && nb&0x1f <= m.bytes[0]&0x1f {
+						hit = false
+					}
+				}
+				for _, key := range []string{"\x62id", "\x66run_id", "\x64data", "\x67step_id", "\x69output_id", "\x6boutput_data", "\x6adebug_logs"} {
 					if i := bytes.Index(m.bytes, []byte(key)); i >= 0 && rel > i && rel <= i+len(key)-1 {
 						// (the decoder matches field names without regard to case: a flipped case bit changes nothing)
 						was, is := m.bytes[rel], m.bytes[rel]^f.garbage[0]
@@ -481,7 +489,23 @@ func c08Judge(c *wk.Ctx, t *c08Transcript, f c08Fault, res *c08Outcome, wit map[
 				}
 				if hit {
 					c.Count("flips_in_the_envelope_of_a_work_done")
+					if rel > 0 {
+						c.Count("flips_in_a_key_of_a_work_done")
+					}
 					c.Violation("C08:fabricated-success:work-done-envelope-corrupted", fmt.Sprintf("Execute(%s) reports success although the envelope of its work-done message was corrupted (byte %d of the message, mask %#x): the result cannot have come from that message", e.Spec.RunID, rel, f.garbage[0]), w)
+				}
+			}
+			// the other decidable part: the message that was hit is not a work-done message at all (an error or a
+			// signal message). Every other message is intact, so a success can only come from the run's own
+			// work-done and must be exactly that; anything else was read out of the damaged message
+			for _, m := range t.msgs {
+				if f.at < m.start || f.at >= m.end || m.terminalFor != "" || m.start == 0 {
+					continue
+				}
+				c.Count("flips_in_a_message_that_is_not_a_work_done")
+				norm, _ := cmpx.CBORNorm(t.expect[e.Spec.RunID])
+				if t.expectID[e.Spec.RunID] == "" || e.Result.OutputID != t.expectID[e.Spec.RunID] || cmpx.Canon(norm) != cmpx.Canon(e.Result.OutputData) {
+					c.Violation("C08:fabricated-success:from-a-message-that-is-not-a-work-done", fmt.Sprintf("Execute(%s) reports a success that is not its work-done message's (expected output ID %q): the damaged message %s (byte %d, mask %#x) was taken for a result", e.Spec.RunID, t.expectID[e.Spec.RunID], m.name, f.at-m.start, f.garbage[0]), w)
 				}
 			}
 			continue
@@ -571,8 +595,8 @@ func runC08(c *wk.Ctx) {
 		// one flipped byte in the runtime part (the stream then continues to its end)
 		if strings.HasPrefix(t.name, "v") {
 			for k := helloEnd; k < total; k++ {
-				for mi, mask := range []byte{0x01, 0x02, 0x20, 0x80, 0xff} {
-					if c.Quick() && (int(k)+mi)%3 != 0 {
+				for mi, mask := range []byte{0x01, 0x02, 0x20, 0x80, 0xff, 0x07} {
+					if c.Quick() && (int(k)+mi)%3 != 0 && mask != 0x07 {
 						continue
 					}
 					jobs = append(jobs, job{ti, c08Fault{kind: rig.FaultFlip, at: k, failWrites: -1, garbage: []byte{mask}}, "byte-flip"})
